@@ -508,11 +508,46 @@ func exhaustiveC03(t *testing.T) {
 		targets := make([]uint64, 0, 3)
 		hashes := make([]Hash, 0, 3)
 		proofH := make([]Hash, 0, 3)
+		// the same state at the low end of a huge accumulator (behind 2^33, or 2^62+2^40, opaque leaves):
+		// every claim of the enumeration is also put to the stand-alone verifier there, positions shifted
+		// by the independent geometry, so that the 33+-bit arithmetic sees every small claim shape
+		high := uint64(1) << 33
+		if si%2 == 1 {
+			high = uint64(1)<<62 | uint64(1)<<40
+		}
+		var bigRoots []Hash
+		for h := 63; h >= 0; h-- {
+			if high&(uint64(1)<<uint(h)) != 0 {
+				bigRoots = append(bigRoots, model.FreshHash(1000+h))
+			}
+		}
+		big := u.Stump{Roots: append(bigRoots, v.Roots...), NumLeaves: high + v.N}
+		embAt := map[uint64]Hash{}
+		for p, h := range v.At {
+			embAt[embedPos(p, v, high)] = h
+		}
+		embOf := make([]uint64, v.MaxPos()+1)
+		for p := range embOf {
+			embOf[p] = embedPos(uint64(p), v, high)
+		}
+		et := make([]uint64, 0, 3)
 		check := func() {
 			evals++
 			pr := u.Proof{Targets: targets, Proof: proofH}
 			_, err1 := u.Verify(stump, hashes, pr)
 			err2 := pol.Verify(hashes, pr, false)
+			et = et[:0]
+			for _, p := range targets {
+				et = append(et, embOf[p])
+			}
+			if _, err3 := u.Verify(big, hashes, u.Proof{Targets: et, Proof: proofH}); err3 == nil {
+				if bad := falseClaims(et, hashes, func(pos uint64, h Hash) bool { w, ok := embAt[pos]; return ok && w == h }); len(bad) > 0 {
+					c := C03Case{Blocks: []Block{{Add: st.n}, {Del: st.dead}}, Map: Cfg{Kind: "map", Full: true, Rows: 63}, Part: Cfg{Kind: "map", Rows: 63}, High: high}
+					c.Tuple = literalTuple(targets, hashes, proofH)
+					rec.fail(fmt.Sprintf("Verify accepted a false claim on a stump with %d leaves (forest of %d embedded under %d): %v", big.NumLeaves, v.N, high, bad), caseJSON(c), false)
+					t.Fatalf("exhaustive: state n=%d dead=%v embedded under %d: Verify accepted a false claim %v (targets %v hashes %s proof %s)", st.n, st.dead, high, bad, et, shortHs(hashes), shortHs(proofH))
+				}
+			}
 			honest := false
 			if err1 == nil || err2 == nil {
 				var bad []string
